@@ -15,7 +15,7 @@ from common import coq_failing, rng_for, CoqError, g_list, g_bool, subdir
 
 KEYS = ['', '.', '..', 'k1', 'k2', 'new', 'a/b', '/abs', '../outside', 'k1/../k1', 'lnk_out', 'lnk_sib', 'lnk_self',
         'lnk_loop_a', 'lnk_dangling', 'lnk_dangling_out', 'lnk_abs', 'lnk_up', 'lnk_file', 'k1\x00', 'a\\b', 'é', ' ', 'k1/', './k1', 'plainfile',
-        'pickle__T__0123abcd', '.gitignore', '~', 'k1/f1', 'lnk_deep', '*', 'k 1', '-rf', 'K1']
+        'pickle__T__0123abcd', '.gitignore', '~', 'k1/f1', 'lnk_deep', '*', 'k 1', '-rf', 'K1', ' lnk_ws ', 'lnk_ws', ' k1', 'k1 ']
 FILES = ['', '.', '..', 'f1', 'newfile', 'sub/inner', '/etc/passwd_lv', '../k2/g', '../../outside/canary', 'flnk_out',
          'flnk_in', 'flnk_self', 'flnk_dangling', 'flnk_sib', 'sub', 'f1\x00', 'a\\b', 'metadata.json', 'data.pickle',
          'sub/../f1', './f1', 'flnk_dir', 'é', ' ', '../k1x/g', 'flnk_px', '../../escaped/x', '../newsib/x', 'newsub/x']
@@ -47,6 +47,7 @@ def build_sandbox(base, variant):
     L('k1/f1', os.path.join(store, 'lnk_file'))
     L('k1/sub', os.path.join(store, 'lnk_deep'))
     L('../outside/newdir', os.path.join(store, 'lnk_dangling_out'))      # dangling, and its target would lie outside
+    L('../outside/odir', os.path.join(store, ' lnk_ws '))                 # a link whose name is a valid key only once stripped
     k1 = os.path.join(store, 'k1')
     L('../../outside/canary', os.path.join(k1, 'flnk_out'))
     L('f1', os.path.join(k1, 'flnk_in'))
@@ -180,6 +181,7 @@ def run_op(case):
         base_real = os.path.realpath(base)
         obs['touched'] = [os.path.join(base_real, rel) for rel in diff(before, after)]
         obs['touched_rel'] = diff(before, after)
+        obs['removed_kinds'] = {rel: before[rel][0] for rel in diff(before, after) if rel in before and rel not in after}
         obs['base'] = base_real
         return obs
     finally:
@@ -227,6 +229,11 @@ def monitor(case, obs):
     deep = [r for r in inside if r.count('/') > 1]
     if deep and case['op'] != 'delete':
         return ('nested-write', f'a file below a sub-directory of the key directory was touched: {deep}')
+    if case['op'] == 'delete':
+        # delete removes the one key *directory* (with what is in it), never a plain file or a link that sits in the storage directory
+        odd = [r for r, kind in obs.get('removed_kinds', {}).items() if r.startswith(store_rel + '/') and r.count('/') == 1 and kind != 'd']
+        if odd:
+            return ('deleted-non-directory', f'delete({case["key"]!r}) removed {odd}, which is not a key directory')
     if case['op'] == 'exists' and inside:
         return ('exists-modified', f'exists() modified {inside}')
     if case['op'] == 'file' and obs['outcome'] is None and obs['rs_file'][0] == 'ok' and obs['rs_key'][0] == 'ok':
@@ -292,6 +299,8 @@ DIRECTED = [dict(op='file', key=k, filename=f, mode=m, variant=v)
 def run(prop, report, tier, seed, replay=None):
     rng = rng_for(seed, prop, 'paths')
     cases = [replay['input']['case']] if replay else DIRECTED + [gen_case(rng) for _ in range(VOLUME[tier])]
+    if not replay:
+        cases += [dict(op=o, key=k, variant=0) for k in KEYS for o in ('exists', 'delete')]        # every key string, both key-only operations
     if tier == 'thorough' and not replay:
         cases += [dict(op='file', key=k, filename=f, mode=m, variant=0) for k in KEYS for f in FILES for m in ('r', 'w')]
         cases += [dict(op=o, key=k, variant=v) for k in KEYS for o in ('exists', 'delete') for v in (0, 1)]
